@@ -10,6 +10,7 @@ import (
 	"math/rand"
 	"os"
 	"os/exec"
+	"regexp"
 	"sort"
 	"strconv"
 	"strings"
@@ -858,6 +859,45 @@ func c19Mutate(r *rand.Rand, b []byte) ([]byte, string) {
 	}
 }
 
+var c19F32Re = regexp.MustCompile(`f32:[0-9a-f]{8}`)
+
+// c19QuietF32 sets the quiet bit of every float32 NaN in a value text.
+func c19QuietF32(s string) string {
+	if !strings.Contains(s, "f32:") {
+		return s
+	}
+	return c19F32Re.ReplaceAllStringFunc(s, func(t string) string {
+		var b uint32
+		fmt.Sscanf(t[4:], "%x", &b)
+		if b&0x7f800000 == 0x7f800000 && b&0x007fffff != 0 {
+			b |= 0x00400000
+		}
+		return fmt.Sprintf("f32:%08x", b)
+	})
+}
+
+// c19SNaNProbe: variant bytes holding a float whose payload is a signalling NaN. variant.Value keeps
+// a float32 as float64, and that conversion sets the quiet bit, so Decode followed by Encode (which is
+// what a raw write through a shredded column does) changes the four payload bytes.
+func c19SNaNProbe(ctx *core.Ctx) {
+	meta := []byte{0x11, 0x00, 0x00}
+	for _, bits := range c19F32SNaN {
+		value := []byte{14 << 2, byte(bits), byte(bits >> 8), byte(bits >> 16), byte(bits >> 24)}
+		ctx.Case("snan "+core.Hex(value), true)
+		v, err := c19Decode(meta, value)
+		if err != nil {
+			ctx.Fail("L1", "float32-signalling-nan-rejected", "Decode rejects a float with a signalling NaN payload: "+err.Error(), map[string]any{"value_hex": core.Hex(value)})
+			continue
+		}
+		_, re := c19Encode(v)
+		if !bytes.Equal(re, value) {
+			ctx.Hist("codec.note", "float32-snan-bytes-changed-by-decode-encode")
+			ctx.Fail("L1", "float32-signalling-nan-quieted", "Encode(Decode(bytes)) changes the payload of a float32 signalling NaN (NaN compared by bits)",
+				map[string]any{"metadata_hex": core.Hex(meta), "value_hex": core.Hex(value), "reencoded_hex": core.Hex(re)})
+		}
+	}
+}
+
 // c19DecodeWorker: isolated decoder process. stdin: "<meta hex> <value hex>" per line; stdout: one
 // answer line per request ("ok <text>" | "err" | "panic <msg>").
 func c19DecodeWorker(args []string) int {
@@ -1078,7 +1118,12 @@ func c19RunMalformed(ctx *core.Ctx, d *drv.Driver, cases []c19Malformed) {
 			ctx.Hist("malformed.go", "accepted")
 		}
 		p.add("variant.dec "+req, func(m string) {
-			same := m == ans || (ans == "err" && strings.HasPrefix(m, "err "))
+			// variant.Value cannot hold a signalling float32 NaN (reported once by c19SNaNProbe):
+			// compare float32 NaNs up to the quiet bit here
+			same := c19QuietF32(m) == c19QuietF32(ans) || (ans == "err" && strings.HasPrefix(m, "err "))
+			if same && m != ans && strings.HasPrefix(ans, "ok ") {
+				ctx.Hist("malformed.note", "float32 signalling NaN quieted by Decode")
+			}
 			if !same {
 				d2 := map[string]any{"impl": c19Trunc(ans), "spec": c19Trunc(m)}
 				for k, x := range detail {
@@ -1117,6 +1162,39 @@ func RunC19Codec(ctx *core.Ctx) {
 	var wg sync.WaitGroup
 	var mu sync.Mutex
 	var malformed []c19Malformed
+	// corpus first: "codec <value text>" (round trip + mirror) and "bytes <metadata hex> <value hex>"
+	// (decoder agreement on a recorded byte string)
+	{
+		var p c19Pending
+		d := ctx.Driver()
+		for _, file := range ctx.CorpusFiles() {
+			raw, err := os.ReadFile(file)
+			if err != nil {
+				continue
+			}
+			for _, line := range strings.Split(string(raw), "\n") {
+				f := strings.Fields(line)
+				switch {
+				case len(f) == 2 && f[0] == "codec":
+					if n, ok := c19ParseText(f[1]); ok {
+						c19CodecCase(ctx, n, "corpus", &p, true)
+					} else {
+						ctx.Fail("L2", "corpus-unreadable", "cannot parse corpus case "+file, map[string]any{"line": c19Trunc(line)})
+					}
+				case len(f) == 3 && f[0] == "bytes":
+					unhex := func(s string) []byte {
+						if s == "-" {
+							return nil
+						}
+						b, _ := hex.DecodeString(s)
+						return b
+					}
+					malformed = append(malformed, c19Malformed{meta: unhex(f[1]), value: unhex(f[2]), how: "corpus"})
+				}
+			}
+		}
+		p.flush(ctx, d)
+	}
 	for w := 0; w < nw; w++ {
 		w := w
 		wg.Add(1)
@@ -1188,6 +1266,7 @@ func RunC19Codec(ctx *core.Ctx) {
 	}
 
 	c19AmplificationProbe(ctx)
+	c19SNaNProbe(ctx)
 
 	// note (not a failure of C19): variant.Float stores a float32 as float64; that conversion quiets
 	// signalling NaNs, so a signalling float32 NaN payload cannot be represented in a variant.Value.
